@@ -160,13 +160,17 @@ def stream_cases(ctx: Ctx, s, n, rng):
             pys = [p for p in tree if p.endswith(".py")]
             if pys:
                 p = rng.choice(pys)
-                tree[p] += rng.choice(["import os\n", "import ext.lib.x\nfrom ext.lib import thing\n", "import projx, proj_ext.m\n", "from ab.cd import z\nimport a\n"])
+                tree[p] += rng.choice(["import os\n", "import ext.lib.x\nfrom ext.lib import thing\n", "import projx, proj_ext.m\n", "from ab.cd import z\nimport a\n",
+                                       "import EXTRA, extra\nimport Ext.Lib.x\n"])
             dirs = sorted(p for p, v in tree.items() if v is None)
             mp = "proj" if rng.random() < 0.8 else rng.choice(dirs)
             configs = [(True, ("R", ())), (False, ("R", ()))]
             g = tuple(rng.sample(PATS, rng.randint(1, 2)))
             configs.append((False, ("G", g)))
             r = tuple(rng.choice([r"os(\..*)?$", r"ext\.lib", r".*\.m$", r"proj.*", r"a$", r"ab\.", r".*x"]) for _ in range(rng.randint(1, 2)))
+            if rng.random() < 0.25:
+                # an inline flag concerns the pattern it is written in, not its neighbours
+                r = (rng.choice(["(?i)os$", "(?i)ext"]), rng.choice(["extra", r"ext\.lib"]))
             configs.append((False, ("R", r)))
             cases.append({"tree": tree, "root": "proj", "mp": mp, "configs": configs, "relative": rng.random() < 0.25, "explicit_empty": rng.random() < 0.3})
         judge(ctx, s, cases)
